@@ -142,6 +142,11 @@ def apply_mutant(src: str, m: M) -> str:
         if hit != 1:
             raise StaleMutant(f"keyword {kw} of {target} not found")
         return ast.unparse(tree)
+    if m.old == "<decorate>":
+        # new = dotted decorator expression added to the function
+        scope.decorator_list.insert(0, ast.parse(m.new, mode="eval").body)
+        ast.fix_missing_locations(tree)
+        return ast.unparse(tree)
     if m.old == "<rename-param>":
         a, b = m.new.split("->")
         hit = 0
